@@ -277,11 +277,87 @@ def r14e(F):
 		pass
 	return out
 
+def r14g(F):
+	"""(i) only the final, non-blinded node may be excused from blame for a recipient-type failure code;
+	(ii) the final payload's TLV records are emitted in strictly increasing type order: the merged custom/keysend/invoice_request list is sorted last"""
+	out = []
+	fn = OU + 'process_onion_failure_inner'
+	hit = None
+	for n in F.family(fn):
+		fu = F.func(n)
+		if fu.call_blocks(lambda p: p.endswith('LocalHTLCFailureReason::is_recipient_failure')):
+			hit = fu
+	if hit is None:
+		out.append(Result('14.g', False, 'anchor:is_recipient_failure', 'process_onion_failure_inner no longer consults is_recipient_failure()', where=F.where(F.fn(fn))))
+	else:
+		fu = hit
+		ex = Expr(fu)
+		# FINAL = the flag stored as payment_failed_permanently where a hop's packet could not be parsed (it is exactly "this is the final non-blinded node")
+		finals = set()
+		for bi, si, s in fu.stmts():
+			if s[2][0] == 'agg' and s[2][1] == 'adt' and norm(s[2][2]).endswith('FailureLearnings'):
+				names = s[2][5] if len(s[2]) > 5 else []
+				if names and 'payment_failed_permanently' in names:
+					o = s[2][4][names.index('payment_failed_permanently')]
+					if o[0] in ('c', 'm') and len(o[1]) == 1:
+						src = o[1][0]
+						# follow one copy
+						for d in fu.whole_defs(src):
+							rv = d[3]
+							if rv[0] == 'use' and rv[1][0] in ('c', 'm') and len(rv[1][1]) == 1:
+								finals.add(rv[1][1][0])
+						finals.add(src)
+		rb = fu.call_blocks(lambda p: p.endswith('LocalHTLCFailureReason::is_recipient_failure'))
+		ds = call_decisions(fu, rb, 'bool')
+		ok = False
+		for d in ds:
+			tr = fu.reach([e[1] for e in d.true_edges], removed_blocks={d.b})
+			fr = fu.reach([e[1] for e in d.false_edges], removed_blocks={d.b})
+			# a local that is `false` when the code is not a recipient failure and a copy of FINAL when it is
+			cand = {}
+			for bi, si, s in fu.stmts():
+				if len(s[1]) != 1:
+					continue
+				rv = s[2]
+				if rv[0] == 'use' and rv[1][0] == 'k' and rv[1][1].get('v') == 0 and bi in fr and bi not in tr:
+					cand.setdefault(s[1][0], set()).add('false')
+				if rv[0] == 'use' and rv[1][0] in ('c', 'm') and len(rv[1][1]) == 1 and rv[1][1][0] in finals and bi in tr and bi not in fr:
+					cand.setdefault(s[1][0], set()).add('final')
+			if any(v == {'false', 'final'} for v in cand.values()):
+				ok = True
+		out.append(Result('14.g', ok and bool(finals), ('ok:' if ok and finals else 'guard:') + 'recipient-failure-needs-final-node', 'a recipient-type failure code excuses the reporting hop from blame only in conjunction with "it is the final, non-blinded node" (is_recipient_failure() && is_from_final_non_blinded_node)' if ok else 'the result of is_recipient_failure() is used without the final-node conjunct: an intermediate hop returning a recipient-only code (e.g. incorrect_or_unknown_payment_details) would not be blamed', len(rb) + len(finals), where=F.where(fu.name, fu.line_of(rb[0]))))
+	# (ii) TLV order of the final payloads
+	for wfn, label in (('lightning::ln::msgs::<impl lightning::util::ser::Writeable for lightning::ln::msgs::fuzzy_internal_msgs::OutboundOnionPayload>::write', 'OutboundOnionPayload'), ('lightning::ln::msgs::<impl lightning::util::ser::Writeable for lightning::ln::msgs::fuzzy_internal_msgs::OutboundTrampolinePayload>::write', 'OutboundTrampolinePayload')):
+		if not F.has_fn(wfn):
+			out.append(Result('14.g', False, 'anchor:' + label, 'anchor missing: %s' % wfn))
+			continue
+		fu = F.func(wfn)
+		srt = fu.call_blocks(lambda p: 'sort' in p.rsplit('::', 1)[-1])
+		if not srt:
+			out.append(Result('14.g', False, 'order:no-sort@' + label, '%s::write no longer sorts the merged custom TLV list' % label, where=F.where(wfn)))
+			continue
+		grow = set(fu.call_blocks(lambda p: p.startswith('alloc::vec::Vec::') and p.rsplit('::', 1)[-1] in ('extend', 'push', 'append', 'insert', 'extend_from_slice') or p.endswith('Extend::extend')))
+		bad = []
+		for b in srt:
+			after = fu.reach([s2 for s2 in fu.succ(b)])
+			# growth of a Vec of TLV tuples after the sort, before the arm returns
+			for g in grow & after:
+				ty = fu.blocks[g]['t'][2].get('g') or ''
+				if 'u64' in ty and 'Vec<u8>' in ty.replace('alloc::vec::', ''):
+					bad.append(fu.line_of(g))
+		# everything merged is merged before the sort: chain(..) calls precede it
+		ch = set(fu.call_blocks(lambda p: p.endswith('Iterator::chain')))
+		pre = all(fu.reach_back([b]) & ch for b in srt) if ch else False
+		ok = not bad and pre
+		out.append(Result('14.g', ok, ('ok:' if ok else 'order:') + 'sorted-last@' + label, '%s::write: custom, keysend and invoice_request TLVs are chained first and the list is sorted last (%d sort call(s))%s' % (label, len(srt), '' if ok else '; list grows after the sort at line(s) %s or nothing is chained before it: records would be written out of order and the recipient rejects the payload' % bad), len(srt) + len(ch), where=F.where(wfn)))
+	return out
+
 RULES = [
 	('14.a', 'decode_next_hop: nothing is decrypted / parsed / returned before the HMAC (over hop data and payment hash) matches', r14a),
 	('14.d', 'final iff the next HMAC is zero; forward returns the shifted same-size packet; payload kind matches packet kind', r14d),
 	('14.f', 'payment onions bind the payment hash on both sides; only onion messages decode untagged', r14f),
 	('14.b', 'outbound onion payload TLVs are read by the inbound decoders; decoders reject unknown even types', r14b),
 	('14.c', 'packet size is a type-level constant', r14c),
+	('14.g', 'recipient-type failure codes excuse only the final non-blinded node; final payload TLVs are sorted after merging', r14g),
 	('14.e', 'failures: blame only behind the hop HMAC; build then encrypt; key derivation per purpose', r14e),
 ]
